@@ -38,6 +38,20 @@ func VerifC02Journal() {
 		copy(hdr[8:28], rt.Bytes("jhdr", 20))
 	}
 	rt.Check(db.WriteJournalAt(ctx, jf, hdr, 0, 1) == nil, "journal header write")
+	if scenario == 0 && rt.Choose("header.rewrite", 2) == 1 {
+		// SQLite rewrites the start of the header while the transaction runs: the unsynced form (zero magic
+		// and record count, the other fields set) and later magic + record count again. Only a write of 28
+		// zero bytes is the PERSIST finalisation; these rewrites are not.
+		h28 := make([]byte, SQLITE_JOURNAL_HEADER_SIZE)
+		copy(h28[12:], rt.Bytes("jhdr.fields", 16))
+		h28[22] = 2 // sector size 512: the header is certainly not all zero
+		rt.Check(db.WriteJournalAt(ctx, jf, h28, 0, 1) == nil, "journal header rewrite (unsynced form)")
+		rt.Check(db.Pos() == pos0 && len(verifLTXNames(db)) == 0, "rewriting the journal header is not a commit")
+		h12 := make([]byte, 12)
+		copy(h12, SQLITE_JOURNAL_HEADER_STRING)
+		rt.Check(db.WriteJournalAt(ctx, jf, h12, 0, 1) == nil, "journal header rewrite (magic and record count)")
+		rt.Check(db.Pos() == pos0, "rewriting the journal header is not a commit")
+	}
 
 	// page writes
 	commit := n0
